@@ -29,15 +29,6 @@ def w3cMetaOfJson (j : Json) : Option W3CMeta := do
          v11 := ← fld j "v11" >>= boolOfJson, hasIssuanceDate := ← fld j "has_issuance_date" >>= boolOfJson,
          signatureProofOk := ← fld j "signature_proof_ok" >>= boolOfJson }
 
-def envCtxOfJson (j : Json) : Option Envelope.Ctx :=
-  match j.getObjVal? "uri", j.getObjVal? "obj" with
-  | .ok (.str "v11"), _ => some (.uri .v11Base)
-  | .ok (.str "v20"), _ => some (.uri .v20Base)
-  | .ok (.str "di"), _ => some (.uri .dataIntegrity)
-  | .ok u, _ => (natOfJson u).map (fun k => .uri (.other k))
-  | _, .ok k => (natOfJson k).map .obj
-  | _, _ => none
-
 def pdScalarOfJson (j : Json) : Option ProofDoc.Scalar :=
   match j.getObjVal? "anon", j.getObjVal? "other" with
   | .ok (.arr #[p, k, i]), _ => do
